@@ -319,11 +319,6 @@ CHECKS = {
     ),
     "C15": dict(
         verus=[dict(unit="search_newest"), dict(unit="latest_volume"), dict(unit="search")],
-        kani=[dict(crate="nexrad-data", files=["c15.rs"], host="src/aws/realtime.rs", tag="-aws", role="witness", harnesses=[
-            dict(name="c15_search_all_shapes_n3", bounded="n = 3, all 10 shapes", what="result == newest populated index (or none), call count bound, on the real async fn"),
-            dict(name="c15_search_all_shapes_n4", bounded="n = 4, all 17 shapes", what="same, n = 4"),
-            dict(name="c15_search_all_shapes_n5", bounded="n = 5, all 26 shapes", tier="thorough", what="same, n = 5"),
-        ])],
         trusted_base=STD_TRUST + [
             "R-async: the awaited closure future is immediately ready, so the sequential call chain is the semantics (single task, no shared state inside search)",
             "R-mono: V := u64 (upload times are a total order; the code is parametric in V: PartialOrd + Clone)",
